@@ -256,6 +256,25 @@ def delegation_rule(chk, prog, roles):
         chk.require(okr, "DELEG", key + "/result", loc_str(last) if last else loc_str(w),
                     "%s returns the result of the string entry point (and never EXIT_SUCCESS on its own)" % wname,
                     "returns %s" % (expr_str(kids(last)[0]) if last else "nothing"))
+    # a file entry point that does not load the text itself but goes through another file entry point: what it ends up
+    # delegating to must still be the string entry point of its own kind (plain for the plain one, counting for the counting one)
+    unit_names = {u[0] for u in units}
+    by_wrapper = dict(pairs)
+    for fn, f in sorted(lib.items()):
+        if fn in unit_names or f.get("storageClass") == "static" or "file" not in fn or "assemble" not in fn:
+            continue
+        inner = [c for c in walk(prog.body(f)) if c.get("kind") == "CallExpr" and callee_name(c) in unit_names]
+        if len(inner) != 1:
+            continue
+        target = callee_name(inner[0])
+        counting = "int *" in [qtype(p) for p in prog.params(f)]
+        tcount = "int *" in [qtype(p) for p in prog.params(lib[target])]
+        legacy_alias = len(prog.params(f)) == len(prog.params(lib[target])) and counting == tcount
+        chk.require(legacy_alias, "DELEG", "DELEG/%s" % fn, loc_str(inner[0]),
+                    "%s delegates to the %s string entry point" % (fn, "counting" if counting else "plain"),
+                    "goes through %s, which delegates to %s" % (target, by_wrapper.get(target, "?")))
+        if legacy_alias and target in by_wrapper:
+            pairs.append((fn, by_wrapper[target]))
     pairs = sorted(set(pairs))
     chk.floor("file wrappers", len(pairs), 2)
     chk.analysed["delegation"] = pairs
